@@ -188,3 +188,11 @@ Theorem C03_dispatched_train_never_reverses :
   tw_trace fmax (Forall pt_ok) nonneg_step ({| sl_st := st; sl_cache := cache; sl_fb := fb; sl_idx := 0 |}, con) x' /\
   0 <= k_speed (ts_k (sl_st (fst x'))).
 Proof. exact sl_timed_walk_never_reverses. Qed.
+
+Theorem C03_whole_walk_never_reverses : forall (e : Env (F:=R)) pts offset_end fmax fuel x x',
+  Forall pt_ok pts -> sl_full_walk fuel e pts offset_end fmax x = Ok x' ->
+  0 < k_dt (ts_k (sl_st (fst x))) -> 0 < mass_compound (ts_p (sl_st (fst x))) -> 0 <= k_speed (ts_k (sl_st (fst x))) ->
+  0 <= k_speed (ts_k (sl_st (fst x'))) /\
+  exists n, sl_full_run n e pts fmax x = Ok x' /\
+    forall k y, sl_full_run k e pts fmax x = Ok y -> 0 <= k_speed (ts_k (sl_st (fst y))).
+Proof. exact sl_full_walk_never_reverses. Qed.
